@@ -259,6 +259,11 @@ class RTDCBase(abc.ABC):
                     # Compute new value
                     data_dict = ancol[feat].compute(self)
                     for okey in data_dict:
+                        if okey != feat and okey in self.features_basin:
+                            # A feature computed alongside `feat` must not
+                            # take precedence over the basin that provides
+                            # it (cached data are looked up before basins).
+                            continue
                         # Store computed value in `self._ancillaries`.
                         self._ancillaries[okey] = (anhash, data_dict[okey])
                     data = data_dict[feat]
